@@ -765,11 +765,12 @@ theorem sum_filter_eq_readW (sl : List (Slot Bucket)) (p : Slot Bucket → Bool)
       simpa using ihr
 
 /-- a view of interval `Iv ≤ 10 s` over a node that recorded `ev` reads the aligned-window reference over `ev` -/
-theorem nodeOk_window {n ev g T} (h : NodeOk n ev g T) (now Iv : Nat) (hT : T ≤ now) (hIv : Iv ≤ sampleCountTotal * bucketLen) :
+theorem nodeOk_window {n ev g T} (h : NodeOk n ev g T) (now Iv : Nat) (hT : T ≤ now) (hpos : 0 < now)
+    (hIv : Iv ≤ sampleCountTotal * bucketLen) :
     viewSum n.arr Iv now = refW bucketLen ev (cbs bucketLen now + bucketLen - Iv) (cbs bucketLen now) := by
   obtain ⟨hL, hn, _, tc, latest, inv, hl⟩ := h
   unfold viewSum viewVals rangeOf
-  simp only [hL, hn]
+  simp only [hL, hn, Nat.pos_iff_ne_zero.mp hpos, if_false]
   have hLpos : 0 < bucketLen := by decide
   have hc : cbs bucketLen now ≤ now := by unfold cbs; omega
   have hlt : now < cbs bucketLen now + bucketLen := by
